@@ -1,4 +1,4 @@
-(* C09 / liveness of the shutdown path: close_returns.
+(* C09 / a COUNTER MODEL of the shutdown path with liveness ASSUMED (close_returns_model in Props).
 
    A small hand-written transition system of Conn.shutdown and the threads it waits for, with
    the environment assumptions made explicit as the enabledness of steps.  It is NOT generated
